@@ -305,36 +305,125 @@ func mutexFieldOf(st *types.Struct) (string, bool, bool) {
 	return "", false, false
 }
 
-// freshLocal: is v (the base of a field access) an allocation of this function that has not
-// escaped before instruction `at`?
+// freshLocal: is v (the base of a field access) an object allocated in this function that has
+// not been published before instruction `at`? It looks through the single-assignment local
+// cell the compiler introduces when the variable is captured by a closure.
 func freshLocal(v ssa.Value, at ssa.Instruction) bool {
-	a, ok := v.(*ssa.Alloc)
-	if !ok {
+	var obj, cell *ssa.Alloc
+	switch x := v.(type) {
+	case *ssa.Alloc:
+		obj = x
+	case *ssa.UnOp:
+		if x.Op != token.MUL {
+			return false
+		}
+		c, ok := x.X.(*ssa.Alloc)
+		if !ok {
+			return false
+		}
+		cell = c
+		n := 0
+		if refs := c.Referrers(); refs != nil {
+			for _, ref := range *refs {
+				if st, ok := ref.(*ssa.Store); ok && st.Addr == c {
+					n++
+					if a, ok := st.Val.(*ssa.Alloc); ok {
+						obj = a
+					}
+				}
+			}
+		}
+		if n != 1 || obj == nil {
+			return false
+		}
+	default:
 		return false
 	}
-	refs := a.Referrers()
-	if refs == nil {
+	// is `w` (a value) the object itself?
+	isObjValue := func(w ssa.Value) bool {
+		if w == obj {
+			return true
+		}
+		if u, ok := w.(*ssa.UnOp); ok && u.Op == token.MUL && cell != nil && u.X == cell {
+			return true
+		}
+		return false
+	}
+	storedIntoOwnField := func(val ssa.Value) bool {
+		refs := val.Referrers()
+		if refs == nil || len(*refs) == 0 {
+			return false
+		}
+		for _, ref := range *refs {
+			st, ok := ref.(*ssa.Store)
+			if !ok || st.Val != val {
+				return false
+			}
+			fa, ok := st.Addr.(*ssa.FieldAddr)
+			if !ok || !isObjValue(fa.X) {
+				return false
+			}
+		}
 		return true
 	}
-	for _, ref := range *refs {
-		escapes := false
-		switch x := ref.(type) {
-		case *ssa.FieldAddr:
-			// a field address: fine unless the address itself escapes through a go/closure; the
-			// accesses we care about are checked one by one
-			continue
-		case *ssa.Store:
-			escapes = x.Val == a
-		case *ssa.UnOp, *ssa.DebugRef:
-			continue
-		default:
-			escapes = true
+	var escapes []ssa.Instruction
+	useOfObjValue := func(val ssa.Value) {
+		refs := val.Referrers()
+		if refs == nil {
+			return
 		}
-		if escapes && (instrDominates(ref, at) || instrReaches(ref, at)) {
+		for _, ref := range *refs {
+			switch x := ref.(type) {
+			case *ssa.FieldAddr, *ssa.DebugRef:
+				continue
+			case *ssa.Store:
+				if x.Val == val && cell != nil && x.Addr == cell {
+					continue
+				}
+				if x.Val != val {
+					continue // store INTO the object through a derived address
+				}
+				escapes = append(escapes, ref)
+			default:
+				escapes = append(escapes, ref)
+			}
+		}
+	}
+	useOfObjValue(obj)
+	if cell != nil {
+		if refs := cell.Referrers(); refs != nil {
+			for _, ref := range *refs {
+				switch x := ref.(type) {
+				case *ssa.Store, *ssa.DebugRef:
+					continue
+				case *ssa.UnOp:
+					useOfObjValue(x)
+				case *ssa.MakeClosure:
+					if !storedIntoOwnField(x) {
+						escapes = append(escapes, ref)
+					}
+				default:
+					escapes = append(escapes, ref)
+				}
+			}
+		}
+	}
+	for _, e := range escapes {
+		if e == at {
+			continue
+		}
+		if instrDominates(e, at) || instrReaches(e, at) {
 			return false
 		}
 	}
 	return true
+}
+
+// owners whose mutex is not "the lock of all mutable fields"
+var lock3Excluded = map[string]string{
+	"Bucket":         "indexMutex only guards the one-time index bootstrap (indexesEnsured); tracked is configuration set before use (GridFS, outside C04)",
+	"UploadStream":   "GridFS stream state, serialised per stream by its own mutex through unexported helpers; outside C04's scope (C18 not applicable)",
+	"DownloadStream": "GridFS stream state, serialised per stream by its own mutex through unexported helpers; outside C04's scope (C18 not applicable)",
 }
 
 type fieldAccess struct {
@@ -369,6 +458,9 @@ func ruleLock3(c *Ctx, r *Reporter) {
 				return
 			}
 			if _, _, has := mutexFieldOf(st); !has {
+				return
+			}
+			if lock3Excluded[named.Obj().Name()] != "" {
 				return
 			}
 			owners[named] = true
